@@ -26,7 +26,7 @@
 (***************************************************************************)
 EXTENDS N2KWire, N2KFraming, N2KDecoder, Json, IOUtils
 
-CONSTANTS Format,        \* "ebyte" | "usb"
+CONSTANTS Format,        \* "ebyte" | "usb" | "yd"
           ChunkSizes,    \* sizes of the reads the transport may deliver (0 = everything that is in flight)
           Cfg            \* decoder configuration (as in N2KDecoder)
 
@@ -47,11 +47,14 @@ Script == IF "SCRIPT_FILE" \in DOMAIN IOEnv THEN JsonDeserialize(IOEnv.SCRIPT_FI
 PgnNum(kind) == CASE kind = "A" -> 127250 [] kind = "B" -> 130306 [] kind = "F" -> 128275
                   [] kind = "CLAIM" -> 60928 [] OTHER -> 159285
 KindOfPgn(n) == CASE n = 127250 -> "A" [] n = 130306 -> "B" [] n = 128275 -> "F" [] n = 60928 -> "CLAIM" [] OTHER -> "U"
-Disc == IF Format = "ebyte" THEN [kind |-> "fixed", N |-> 13, M1 |-> 0, M2 |-> 0]
-        ELSE [kind |-> "marker", N |-> 20, M1 |-> 170, M2 |-> 85]
-RenderFrame(fr) == IF Format = "ebyte" THEN EByteRender(fr) ELSE UsbRender(fr)
-ParsePacket(p) == IF Format = "ebyte" THEN EByteParse(p) ELSE UsbParse(p)
-PacketValid(p) == IF Format = "ebyte" THEN Len(p) = 13 ELSE UsbValid(p)
+Disc == CASE Format = "ebyte" -> [kind |-> "fixed", N |-> 13, M1 |-> 0, M2 |-> 0]
+          [] Format = "usb"   -> [kind |-> "marker", N |-> 20, M1 |-> 170, M2 |-> 85]
+          [] Format = "yd"    -> [kind |-> "lines", N |-> 0, M1 |-> 0, M2 |-> 0]
+Stamp == <<48, 48, 58, 48, 48, 58, 48, 48, 46, 48, 48, 48>>          \* "00:00:00.000"
+RenderFrame(fr) == CASE Format = "ebyte" -> EByteRender(fr) [] Format = "usb" -> UsbRender(fr)
+                     [] Format = "yd" -> YdReceive(fr, Stamp, 82, TRUE)
+ParsePacket(p) == CASE Format = "ebyte" -> EByteParse(p) [] Format = "usb" -> UsbParse(p) [] Format = "yd" -> YdParse(p)
+PacketValid(p) == CASE Format = "ebyte" -> Len(p) = 13 [] Format = "usb" -> UsbValid(p) [] Format = "yd" -> YdValid(p)
 
 ----------------------------------------------------------------------------
 (* the sender *)
